@@ -363,7 +363,7 @@ class Inliner:
             pt = (g.type(p["t"]) or "").rstrip()
             modified = bool(ctx.mods.get(p["d"]))
             a0 = strip_cast(a)
-            if pt.endswith("&"):
+            if pt.endswith("&") and (_simple_arg(a) or (a0 is not None and a0.get("k") in ("Ref", "Member", "Index", "This"))):
                 subst[p["d"]] = a
             elif not modified and _simple_arg(a) and not (a0.get("k") == "Ref" and a0.get("d") in by_ref_locals):
                 subst[p["d"]] = a
@@ -706,7 +706,6 @@ def canonical_loop(s, ctx, typeof):
             x0 = strip_cast(x)
             if x0.get("k") == "Ref" and x0.get("d") == ctrl and not ctrl_inside:
                 # the end pointer was computed from the cursor itself: it must still have that value when the loop is entered
-                holder = rhs
                 rr = strip_cast(rhs)
                 site = s
                 if rr.get("k") == "Ref" and rr.get("dk") == "local" and rr["d"] in ctx.decl:
@@ -805,6 +804,11 @@ def canonical_loop(s, ctx, typeof):
             return _plus(copy.deepcopy(b), iref(), n.get("l"))
         return rewrite(n)
     new_body = [rw(b) for b in new_body]
+    if post:
+        # leaving the loop early would leave the cursors somewhere else than start + N
+        own_break = any(x.get("k") == "Break" for b in body for x in walk(b, prune=lambda y: y.get("k") in LOOPS or y.get("k") == "Switch"))
+        if own_break or any(x.get("k") in ("Return", "Throw") for b in body for x in walk(b)):
+            raise NotRecognised("loop may be left early while cursors declared outside are used afterwards")
     loop = _mk_for(iv, it, trip, new_body, line)
     if reuse is not None:
         loop["init"]["vars"][0]["n"] = reuse["n"]
@@ -995,6 +999,8 @@ def enum_tests(cond, is_scrutinee):
             x0, y0 = strip_cast(x), strip_cast(y)
             if is_scrutinee(x0) and y0 is not None and y0.get("k") == "Ref" and y0.get("dk") == "enum" and y0.get("qn"):
                 return {(y0["qn"], y0.get("v"))}
+            if is_scrutinee(x0) and y0 is not None and y0.get("k") == "Int":
+                return {(str(int(y0["v"])), y0.get("v"))}
     return None
 
 
